@@ -96,7 +96,7 @@ def ibm_one_hot_at_first_maximum(signal, source_axis, sensor_axis, keepdims, exa
     """ideal binary mask: one-hot along the source axis, at the (first) source of maximal sensor-pooled power"""
     nd = signal.ndim
     sa, se = mu.norm_axis(source_axis, nd), mu.norm_axis(sensor_axis, nd)
-    m = mm.ideal_binary_mask(signal.copy(), source_axis=source_axis, sensor_axis=sensor_axis, keepdims=keepdims)
+    m = mm.ideal_binary_mask(signal.copy(order='K'), source_axis=source_axis, sensor_axis=sensor_axis, keepdims=keepdims)
     want = _expected_shape(signal.shape, se, keepdims)
     if m.shape != want:
         return Fail('shape', f'ideal_binary_mask shape {m.shape}, expected {want}')
@@ -134,7 +134,7 @@ def ratio_mask_range_and_sum(name, signal, source_axis, sensor_axis, keepdims, e
     kw = dict(source_axis=source_axis, eps=eps)
     if name == 'wiener_like_mask':
         kw.update(sensor_axis=sensor_axis, keepdims=keepdims)
-    m = _fn(name)(signal.copy(), **kw)
+    m = _fn(name)(signal.copy(order='K'), **kw)
     want = _expected_shape(signal.shape, se, keepdims)
     if m.shape != want:
         return Fail('shape', f'{name} shape {m.shape}, expected {want}')
@@ -162,8 +162,8 @@ def complex_and_phase_sensitive_mask(signal, source_axis, eps):
     """ideal complex mask * sum of sources = source; phase-sensitive mask = Re(icm) * |y| / (|y| + eps)"""
     nd = signal.ndim
     sa = mu.norm_axis(source_axis, nd)
-    icm = mm.ideal_complex_mask(signal.copy(), source_axis=source_axis)
-    psm = mm.phase_sensitive_mask(signal.copy(), source_axis=source_axis, eps=eps)
+    icm = mm.ideal_complex_mask(signal.copy(order='K'), source_axis=source_axis)
+    psm = mm.phase_sensitive_mask(signal.copy(order='K'), source_axis=source_axis, eps=eps)
     if icm.shape != signal.shape or psm.shape != signal.shape:
         return Fail('shape', f'icm {icm.shape} psm {psm.shape} signal {signal.shape}')
     if np.iscomplexobj(psm):
@@ -209,7 +209,7 @@ def quantile_mask_levels(signal, quantile, axis, weight):
     axes = _norm_axes(axis, nd)
     qs = list(quantile) if isinstance(quantile, (tuple, list)) else [quantile]
     try:
-        m = mm.quantile_mask(signal.copy(), quantile=quantile, axis=axis, weight=weight)
+        m = mm.quantile_mask(signal.copy(order='K'), quantile=quantile, axis=axis, weight=weight)
     except TypeError as e:
         if len(set(axes)) == nd:
             return Fail('no-independent-axis', f'quantile_mask raises {e!r} when every axis of the input is a '
@@ -265,7 +265,7 @@ def lorenz_mask_levels(signal, sensor_axis, axis, lorenz_fraction, weight, keepd
             return Skip('tie-within-rounding: cumulative share equals the Lorenz fraction')
         rows.append((idx, sub, thr))
     try:
-        m = mm.lorenz_mask(signal.copy(), sensor_axis=sensor_axis, axis=axis, lorenz_fraction=lorenz_fraction,
+        m = mm.lorenz_mask(signal.copy(order='K'), sensor_axis=sensor_axis, axis=axis, lorenz_fraction=lorenz_fraction,
                            weight=weight, keepdims=keepdims)
     except ValueError as e:
         return Fail('raises', f'lorenz_mask raised {e!r} although every row has points below the Lorenz fraction')
@@ -330,7 +330,7 @@ def axis_move_equivariance(name, signal, kwargs, src, dst, contiguous):
     if has_keep:
         kw1['keepdims'] = kw2['keepdims'] = True
     try:
-        o1 = _call(name, signal.copy(), kw1)
+        o1 = _call(name, signal.copy(order='K'), kw1)
     except ValueError:
         if name == 'lorenz_mask':
             return Skip('a single point carries the Lorenz fraction (or no power)')
@@ -339,7 +339,7 @@ def axis_move_equivariance(name, signal, kwargs, src, dst, contiguous):
         if name == 'quantile_mask' and len(set(_norm_axes(kwargs['axis'], nd))) == nd:
             return Skip('quantile_mask raises without an independent axis (reported by quantile_mask_levels:no-independent-axis)')
         raise
-    o2 = _call(name, x2.copy(), kw2)
+    o2 = _call(name, x2.copy(order='K'), kw2)
     lead = o1.ndim - nd       # quantile tuple adds a leading axis
     want = np.transpose(o1, list(range(lead)) + [a + lead for a in order])
     if o2.shape != want.shape:
@@ -359,7 +359,7 @@ def axis_move_equivariance(name, signal, kwargs, src, dst, contiguous):
     if has_keep and kwargs.get('sensor_axis') is not None:
         kw3 = dict(kw2)
         kw3['keepdims'] = False
-        o3 = _call(name, x2.copy(), kw3)
+        o3 = _call(name, x2.copy(order='K'), kw3)
         w3 = np.squeeze(o2, kw2['sensor_axis'])
         if o3.shape != w3.shape or not np.array_equal(o3, w3):
             return Fail('keepdims', f'{name}: keepdims=False is not the squeezed keepdims=True result')
@@ -710,7 +710,7 @@ def corr(ctx):
         x, kw = meta['x'], meta['kw']
         data = {'signal': x, 'kwargs': {k: (list(v) if isinstance(v, tuple) else v) for k, v in kw.items()}}
         try:
-            want = _fn(op)(x.copy(), **kw)
+            want = _fn(op)(x.copy(order='K'), **kw)
         except ValueError:
             want = 'raise'
         got = _parse_tens(o, complex_=(op == 'ideal_complex_mask'))
